@@ -14,7 +14,7 @@ import time
 import z3
 
 QUICK_TIMEOUT_MS = int(os.environ.get("PYVC_TIMEOUT_MS", "10000"))
-FEAS_TIMEOUT_MS = 2000
+FEAS_TIMEOUT_MS = 150
 
 STATS = {"z3_queries": 0, "z3_s": 0.0, "cvc5_queries": 0, "cvc5_s": 0.0, "feas_queries": 0, "feas_s": 0.0}
 
@@ -25,8 +25,21 @@ def _solver(timeout_ms: int) -> z3.Solver:
     return s
 
 
+_FEAS_CACHE: dict = {}
+
+
 def feasible(pc, extra=None, timeout_ms: int = FEAS_TIMEOUT_MS) -> bool:
     """Path pruning only: unknown counts as feasible (sound: never drops a path)."""
+    key = (tuple(c.get_id() for c in pc), extra.get_id() if extra is not None else None)
+    hit = _FEAS_CACHE.get(key)
+    if hit is not None:
+        return hit[0]
+    r = _feasible(pc, extra, timeout_ms)
+    _FEAS_CACHE[key] = (r, pc, extra)       # keep the terms alive so ids stay unique
+    return r
+
+
+def _feasible(pc, extra, timeout_ms) -> bool:
     t = time.time()
     s = _solver(timeout_ms)
     for c in pc:
@@ -83,6 +96,23 @@ def prove(pc, goal, timeout_ms: int | None = None, use_cvc5: bool = True, both: 
     dt = time.time() - t
     STATS["z3_queries"] += 1
     STATS["z3_s"] += dt
+    if r == z3.unknown:
+        # the sequence solver is unstable: retry with other seeds and a shorter budget before giving up on z3
+        for seed in (7, 1234):
+            s2 = _solver(max(2000, timeout_ms // 3))
+            s2.set("random_seed", seed)
+            s2.set("smt.random_seed", seed) if False else None
+            for c in pc:
+                s2.add(c)
+            s2.add(z3.Not(goal))
+            t1 = time.time()
+            r2 = s2.check()
+            STATS["z3_queries"] += 1
+            STATS["z3_s"] += time.time() - t1
+            if r2 != z3.unknown:
+                r, s = r2, s2
+                dt = time.time() - t
+                break
     if r == z3.unsat and not both:
         return "discharged", None, "z3", dt * 1000, ""
     if r == z3.sat:
